@@ -318,6 +318,12 @@ class LazyEvaluatedKernelTensor(LinearOperator):
         return expected_size
 
     @recall_grad_state
+    def _permute_batch(self, *dims):
+        # x1 and x2 can be permuted, the kernel's own batch shape cannot: a batched kernel is evaluated first
+        if all(size == 1 for size in self.kernel.batch_shape):
+            return super()._permute_batch(*dims)
+        return self.evaluate_kernel()._permute_batch(*dims)
+
     def _transpose_nonbatch(self):
         return self.__class__(
             self.x2,
